@@ -91,7 +91,8 @@ def check(case):
         owned = _arrays_of(params, rec, x0, y0)
         owned.update({f"inner.{k}": v for k, v in _arrays_of(params, inner, None, None).items() if k.startswith(("var_", "cons_"))})
         before = {k: (v.copy(), v.dtype) for k, v in owned.items()}
-        rec.returned = []
+        # objects handed out while the Solver was constructed (automatic scalings evaluate the
+        # callbacks at the scaling point) stay under observation: they are caller-owned as well
         rec.clear()
         out = run_solve(rec, params, x0, y0, solver=solver)
         changed = [k for k, v in owned.items() if not (v.dtype == before[k][1] and np.array_equal(v, before[k][0], equal_nan=True))]
